@@ -641,8 +641,30 @@ async def scenario_corrupt_frame(ctx, rng, t) -> None:
 
         conn.script.responder = responder
         w.pairing.dispatcher_connect(lambda ev: delivered.append(ev))
-        ctx.case("real", t, sample={"part": "real-transport", "frames": n_frames, "corrupted_frame": k, "plaintext_len": len(plaintext)}, kind="real")
+        idle = t % 2 == 1
+        ctx.case("real", t, sample={"part": "real-transport", "frames": n_frames, "corrupted_frame": k, "plaintext_len": len(plaintext), "request_in_flight": not idle}, kind="real-idle" if idle else "real")
         replay = {"part": "real", "t": t}
+        if idle:
+            # the unauthentic frame arrives while NO request is in flight (an unsolicited event): the session must end all the same
+            ev_plain = conn.event(b'{"characteristics":[{"aid":1,"iid":9,"value":"' + body[:600].hex().encode() + b'"}]}')
+            frames = conn.encoder.frames(ev_plain, sizes)
+            kk = min(k, len(frames) - 1)
+            fr = bytearray(frames[kk])
+            fr[max(2, rng.randrange(len(fr)))] ^= 1 << rng.randrange(8)
+            frames[kk] = bytes(fr)
+            conn.transport.write(b"".join(frames))
+            conn.transport.write(b"".join(conn.encoder.frames(conn.event(b'{"characteristics":[{"aid":1,"iid":9,"value":true}]}'))))
+            await vloop.settle()
+            await asyncio.sleep(0.2)
+            await vloop.settle()
+            if conn.is_open:
+                ctx.violation("session-survives-corruption-while-idle", "an unauthentic frame arrived with no request in flight and the controller left the connection open", replay)
+            else:
+                ctx.count("real_transport_teardowns")
+                ctx.count("real_transport_idle_teardowns")
+            if [d for d in delivered if d]:
+                ctx.violation("event-after-corruption-delivered", f"listener got {delivered}", replay)
+            return
         try:
             resp = await asyncio.wait_for(w.connection.get("/accessories"), 40)
             ctx.violation("corrupted-response-delivered", f"request completed with code {resp.code} although frame {k} was corrupted", replay)
